@@ -286,6 +286,25 @@ def exec_hist(scn) -> list[dict]:
                     return cls.from_dict(kws)
                 return cls.from_dict({k: [kw[k] for kw in kws] for k in keys})
             rec.run("from_dict", None, cols_form, {"rows": arows})
+        # an undeclared key (in a later record, in the first one, or as a column) is refused, or at least never becomes a field
+        for form in ("later_record", "first_record", "column"):
+            kws = [item_kwargs(cls, h["o"], h["n"], h["k"]) for h in rows] or [item_kwargs(cls, 0, 0, 0)]
+            if form == "later_record" and len(kws) < 2:
+                continue
+
+            def bad(form=form, kws=kws):
+                if form == "column":
+                    d = {k: [kw[k] for kw in kws] for k in kws[0]}
+                    d["bogus"] = [1] * len(kws)
+                    return cls.from_dict(d)
+                kws = [dict(k) for k in kws]
+                kws[-1 if form == "later_record" else 0]["bogus"] = 1
+                return cls.from_dict(kws)
+            rec.run("from_dict_undeclared", None, bad, {"form": form})
+            last = rec.out[-1]
+            last["refused"] = last["exc"].startswith("ValueError")
+            if last["refused"]:
+                last["exc"] = ""
         props = cls._item_class()._props
         decl = declared_fields(cls)
         default = {"o": 0, "n": 0, "x": [sval(props[f][1]) for f in other_fields(decl)]}
